@@ -12,6 +12,7 @@ mod c16;
 mod c13;
 mod c07;
 mod c15;
+mod c14;
 mod common;
 mod dict;
 mod world;
@@ -50,6 +51,7 @@ fn main() {
         "C13" => c13::run(&mut run),
         "C07" => c07::run(&mut run),
         "C15" => c15::run(&mut run),
+        "C14" => c14::run(&mut run),
         _ => { eprintln!("unknown property {}", prop); std::process::exit(2); }
     }
     run.finish();
